@@ -335,6 +335,42 @@ def r8(ctx, r):
                  okdesc="sub-timeout = min(remaining, subInterval)")
 
 
+def r9(ctx, r):
+    """a sub-attempt that succeeded is handed to the caller (or closed), never dropped"""
+    fb = ctx.fb()
+    for fname in ("iora::network::ITransport::connectSyncCancellable",):
+        f = fb.func(fname)
+        calls = [e for e in f.stmts() if e.node.get("k") == "mcall" and last(e.node.get("callee", "")) == "connectSync"]
+        vocab = Vocab(["isok", "attempted"])
+
+        def leaf(n):
+            if n.get("k") == "mcall" and last(n.get("callee", "")) == "isOk" and (n.get("obj") or {}).get("k") == "var":
+                return A("isok")
+            if n.get("k") == "mcall" and last(n.get("callee", "")) == "isErr" and (n.get("obj") or {}).get("k") == "var":
+                return Not(A("isok"))
+            return None
+        closes = [e for e in f.stmts() if e.node.get("k") == "mcall" and last(e.node.get("callee", "")) == "close"]
+
+        def eff(e):
+            if e in calls:
+                return [("havoc", "isok"), ("set", "attempted", True)]
+            if e in closes:
+                return [("set", "isok", False)]
+            return None
+        pa = PredAbs(f, vocab, leaf, eff, init=And(Not(A("attempted")), Not(A("isok"))))
+        for ret in common.returns(f):
+            v = strip_wrappers(ret.node.get("v")) if ret.node.get("v") else None
+            while v is not None and v.get("k") == "ctor" and len(v.get("args", [])) == 1:
+                v = strip_wrappers(v["args"][0])
+            returns_result = v is not None and v.get("k") == "var" and "Result" in v.get("t", "")
+            if returns_result:
+                continue
+            r.instance()
+            r.expect(pa.entails(ret, Not(A("isok"))), f, ret, "successful connect dropped",
+                     "%s can return an error at line %s although the connectSync attempt that just finished may have succeeded: the established session is neither handed "
+                     "to the caller nor closed, so a session attributable to this call stays open" % (last(fname), ret.line), okdesc="error return at line %s only when the last attempt failed" % ret.line)
+
+
 def run(ctx, ck):
     ck.run_rule("C04-R1", "register-before-completion: connect…wait is one syncMutex section containing the registration", "A1 same-section + A2", lambda r: r1(ctx, r))
     ck.run_rule("C04-R2", "engine connect only behind the shutting-down fence", "A5", lambda r: r2(ctx, r))
@@ -343,3 +379,4 @@ def run(ctx, ck):
     ck.run_rule("C04-R5", "success only on done and before close; timeout path closes outside the lock and never succeeds", "A5 ghost atom + A1", lambda r: r5(ctx, r))
     ck.run_rule("C04-R7", "I/O-thread guard precedes the first lock in the synchronous operations", "A2 dominance", lambda r: r7(ctx, r))
     ck.run_rule("C04-R8", "cancellable connect tests the token before every attempt and bounds each sub-wait", "A5 + dataflow", lambda r: r8(ctx, r))
+    ck.run_rule("C04-R9", "a successful sub-attempt is returned or closed, never dropped", "A5", lambda r: r9(ctx, r))
